@@ -230,7 +230,7 @@ class HEMModel(LevyModel):
         return z
 
     def process_drift(self) -> np.array:
-        return -self.parameters.intensity * self.parameters._xi
+        return self.levy_triplet.a
 
     def intensity(self) -> float:
         return self.parameters.intensity
